@@ -261,6 +261,15 @@ def run_shard(spec) -> Result:
                         if case is None:
                             continue
                         handle(case, (pfx, op, b2, addr, rep))
+        # relative jumps: EVERY displacement byte (a displacement that happens to equal some opcode byte, 0x00/0xFF ends)
+        for j, op in enumerate((0x12, 0x13, 0x18, 0x19, 0x1A, 0x1B, 0x1C, 0x1D, 0x1E, 0x1F)):
+            if j % spec["parts"] != spec["part"]:
+                continue
+            for b2 in range(256):
+                for pfx in (None, r.choice(enc.PREFIXES)):
+                    case = states.build_case(r, pfx, op, b2, "dist", addr=r.choice((None, 0x00FE, 0x1FFFD, 0x12345)))
+                    if case is not None:
+                        handle(case, (pfx, op, b2, case["addr"], "disp"))
     else:
         n = 600 if spec["tier"] == "quick" else 8000
         for i in range(n // spec["parts"]):
